@@ -619,6 +619,7 @@ class Dataset(AbstractDataset, dict, OpMixin, GetSetDelAttrMixin):
             if newaxis is None:
                 ax = self.axes[name]
                 newaxis = Axis(func(ax.values, axis=0, **kwargs), ax.name)
+                if keepattrs: newaxis.attrs.update(ax.attrs) # like DimArray.take_axis
             newaxes = [ax.copy() if ax.name != name else newaxis for ax in self.axes]
         else:
             newaxes = [ax.copy() for ax in self.axes if ax.name != name ]
